@@ -7,8 +7,8 @@
    (key, data), [pending] = (open paste: start mark ++ paste buffer) ++ prefix. *)
 From Coq Require Import ZArith List Bool.
 From PTK Require Import Lib.Sx Lib.Py Lib.C03_Regex Gen.C03_AnsiSequences Gen.C03_Regexes
-  Model.C03_Vt100Parser Model.C03_Break Model.C03_Vt100Input Model.C03_Cache Model.C03_Utf8Spec Model.C03_Errors Proofs.C03_Regex Proofs.C03_Cache
-  Proofs.C03_Table Proofs.C03_Process Proofs.C03_Feed Proofs.C03_Lossless Proofs.C03_Main Proofs.C03_Input Proofs.C03_Shift Proofs.C03_Break Proofs.C03_Decode Proofs.C03_Depth Proofs.C03_Utf8 Proofs.C03_Eof Proofs.C03_Errors.
+  Model.C03_Vt100Parser Model.C03_Break Model.C03_Vt100Input Model.C03_Cache Model.C03_Utf8Spec Model.C03_Errors Model.C03_RegexMatch Proofs.C03_Regex Proofs.C03_Cache
+  Proofs.C03_Table Proofs.C03_Process Proofs.C03_Feed Proofs.C03_Lossless Proofs.C03_Main Proofs.C03_Input Proofs.C03_Shift Proofs.C03_Break Proofs.C03_Decode Proofs.C03_Depth Proofs.C03_Utf8 Proofs.C03_Eof Proofs.C03_Errors Proofs.C03_Deriv Proofs.C03_ErrorsChunk.
 Import ListNotations.
 Open Scope Z_scope.
 
@@ -463,6 +463,50 @@ Theorem C03_errors_modes_differ :
   dec_e EStrict [] [195; 40] = mke [] [] true false.
 Proof. exact dec_e_modes_differ. Qed.
 Print Assumptions C03_errors_modes_differ.
+
+(* ---------------------------------------------------------------------- *)
+(* Round 7 *)
+
+(* An executable matcher (Brzozowski derivatives, Model/C03_RegexMatch.v) decides
+   the declarative language of every regular-expression AST, for every string ... *)
+Theorem C03_regex_matcher_decides_language : forall s r, dmatch r s = true <-> matches r s.
+Proof. exact dmatch_spec. Qed.
+Print Assumptions C03_regex_matcher_decides_language.
+
+(* ... and each hand recogniser of the parser model IS that matcher run on the
+   AST regenerated from /repo's pattern string by re's own parser, for ALL
+   strings.  What stays trusted about the regexes: that re.match on the anchored
+   pattern accepts exactly the AST's language (tested each run by running this
+   matcher, extracted, against /repo's compiled regexes) and the generator's
+   translation of re's parse tree. *)
+Theorem C03_cpr_re_is_matcher : forall p, cpr_re p = dmatch ast_cpr_response_re p.
+Proof. exact cpr_re_is_dmatch. Qed.
+Print Assumptions C03_cpr_re_is_matcher.
+Theorem C03_mouse_re_is_matcher : forall p, mouse_re p = dmatch ast_mouse_event_re p.
+Proof. exact mouse_re_is_dmatch. Qed.
+Print Assumptions C03_mouse_re_is_matcher.
+Theorem C03_cpr_prefix_re_is_matcher : forall p, cpr_prefix_re p = dmatch ast_cpr_response_prefix_re p.
+Proof. exact cpr_prefix_re_is_dmatch. Qed.
+Print Assumptions C03_cpr_prefix_re_is_matcher.
+Theorem C03_mouse_prefix_re_is_matcher : forall p, mouse_prefix_re p = dmatch ast_mouse_event_prefix_re p.
+Proof. exact mouse_prefix_re_is_dmatch. Qed.
+Print Assumptions C03_mouse_prefix_re_is_matcher.
+
+(* PosixStdinReader(errors="ignore" / "replace" / "surrogateescape"): two
+   successive decode() calls give the text and the final buffer of one call on
+   the concatenation, wherever the cut falls (also inside an error range). *)
+Theorem C03_errors_chunk_independent : forall m a b, m <> EStrict ->
+  dec_e m [] (a ++ b) = ecombine (dec_e m [] a) (dec_e m (epend (dec_e m [] a)) b).
+Proof. exact dec_e_chunk_independent. Qed.
+Print Assumptions C03_errors_chunk_independent.
+
+(* "strict" is not chunk independent: b"A\xff" in one read raises and returns
+   nothing, cut after "A" the first read hands "A" out. *)
+Theorem C03_errors_strict_chunking_refuted :
+  dec_e EStrict [] ([65] ++ [255]) <>
+  ecombine (dec_e EStrict [] [65]) (dec_e EStrict (epend (dec_e EStrict [] [65])) [255]).
+Proof. exact dec_e_strict_not_chunk_independent. Qed.
+Print Assumptions C03_errors_strict_chunking_refuted.
 
 (* Non-vacuity: the table has multi-key entries without BracketedPaste. *)
 Example C03_table_has_tuples :
